@@ -447,21 +447,24 @@ fn process_engine(rep: &Report, seed: u64, tier: Tier) {
 
 /// Lying servers against info/clone over HTTP.
 fn server_engine(rep: &Report, seed: u64, tier: Tier) {
-    let n = tier.pick(120, 1200);
+    let n = tier.pick(400, 3000);
     let res = par_map(n, crate::util::ncpu(), |i| {
         let mut rng = Rng::new(seed).fork(0x1510 + i as u64);
         let comp = *rng.pick(&[(0u32, 0u32), (3, 4), (2, 3)]);
         let kind = rng.below(3);
         let (_src, _d, _b, valid) = base_archive(&mut rng, comp, kind);
         let target = rng.below(4);
-        let how = rng.below(7);
+        let how = rng.below(9);
+        // A third of the servers keep lying from that request on (a truncated file on a
+        // static server, a broken proxy): the client must give up, not ask forever.
+        let persistent = rng.chance(1, 3);
         let lie_seed = rng.next_u64();
-        let names = ["extra bytes", "long content-length", "short content-length", "wrong status + html", "empty body", "status 200 whole file", "random bytes longer than asked"];
-        let desc = format!("request#{}:{}", target, names[how as usize]);
+        let names = ["extra bytes", "long content-length", "short content-length", "wrong status + html", "empty body", "status 200 whole file", "random bytes longer than asked", "416 empty body", "half of the requested bytes"];
+        let desc = format!("request#{}{}:{}", target, if persistent { "+" } else { "" }, names[how as usize]);
         let server = Server::start(
             Arc::new(valid.clone()),
             Arc::new(move |req, f| {
-                if req.n != target {
+                if req.n < target || (req.n > target && !persistent) {
                     return Action::Full;
                 }
                 let (a, b) = req.range.unwrap_or((0, 0));
@@ -469,6 +472,8 @@ fn server_engine(rep: &Report, seed: u64, tier: Tier) {
                 let mut rng = Rng::new(lie_seed);
                 let correct = f[(a as usize).min(f.len())..(a as usize + len).min(f.len())].to_vec();
                 match how {
+                    7 => Action::Custom { status: 416, declared_len: None, body: vec![] },
+                    8 => Action::Custom { status: 206, declared_len: None, body: correct[..correct.len() / 2].to_vec() },
                     0 => {
                         let mut body = correct;
                         let extra = rng.urange(1, 5000);
@@ -518,7 +523,7 @@ fn server_engine(rep: &Report, seed: u64, tier: Tier) {
             continue;
         }
         rep.count("process.lying_server_runs", 1);
-        let lie = desc.split(':').nth(1).unwrap_or("").to_string();
+        let lie = format!("{}{}", desc.split(':').nth(1).unwrap_or(""), if desc.contains('+') { " (persistent)" } else { "" });
         rep.seen("server_lies", lie.clone());
         if let Some(k) = kind {
             let sig = format!("c15/server/{}/{}", lie, k);
